@@ -85,7 +85,7 @@ CHECKS = {
     },
     "C19": {
         "category": "proof",
-        "text": "PARTIAL proof. Proved in Coq over Model/WriteBehind.v for every shard count S, every worker count W >= 1 and every interleaving of writers, coordinator ticks and worker passes: each shard is owned by exactly one worker (its residue class, as flush_worker_shards strides); at every tick the coordinator wakes the owner of every non-empty shard and worker 0 whenever retirements are pending; a worker's pass empties all its shards; hence an entry queued in any shard is gone once its owner has run, whatever else happens -- nothing can be overlooked indefinitely. Not provable in this model: that a woken worker is scheduled and its I/O returns within the stated time. Tie: real stores built with 1..8 shards (CPU visibility 1..16), workloads that never flush, killed 3-3.5 s after the last call: the image made of fsync-covered writes only must contain every accepted write and, when idle, no un-retired superseded generation.",
+        "text": "PARTIAL proof. Proved in Coq over Model/WriteBehind.v for every shard count S, every worker count W >= 1 and every interleaving of writers, coordinator ticks and worker passes: each shard is owned by exactly one worker (its residue class, as flush_worker_shards strides); at every tick the coordinator wakes the owner of every non-empty shard and worker 0 whenever retirements are pending; a worker's pass empties all its shards; hence an entry queued in any shard is gone once its owner has run, whatever else happens -- nothing can be overlooked indefinitely. Over Model/Backlog.v (the counters the coordinator reads; a pass is drain ... finish with any subset sent back): in every reachable state a shard's counter equals the length of its queue, so a tick wakes the owner of every shard with a backlog; every accepted entry is written, queued and counted, or in its owner's hands; this invariant is checked on the real store through hook H15 under the shard's lock while the lag, crash and failure-path workloads run. Not provable in this model: that a woken worker is scheduled and its I/O returns within the stated time. Tie: real stores built with 1..8 shards (CPU visibility 1..16), workloads that never flush, killed 3-3.5 s after the last call: the image made of fsync-covered writes only must contain every accepted write and, when idle, no un-retired superseded generation.",
         "note": TRUST + " The time bound itself (flush interval + I/O) is measured, not proved; the theorem is the liveness skeleton: ownership partition + coordinator coverage + pass completeness.",
         "design": "DESIGN.md section 5 C19",
     },
